@@ -525,6 +525,8 @@ while len(cases) < ncase:
         fail("C12:formula-raises", "%s raises %s: %s" % (text, type(f).__name__, f), text)
         emit("build-error", src, dk, nk, [], "OpNone", (None, None, None, None), "(RErr %s)" % err_kind(f), text)
         continue
+    if not f.mass > 0:
+        continue        # a formula without mass (all counts zero) is outside the property's domain
     text = "f = " + text
     sets, text = assignments(f, text)
     if f.density is None:
